@@ -234,8 +234,16 @@ def k_rankfrequency(ctx, data, normalize_x, normalize_y, scalex, scaley, log_x=T
             ctx.violation(key + ":raised", "raised", out.describe(), None)
             return
         lines = out.value
-        if not lines or not hasattr(lines[0], "get_xdata"):
-            ctx.violation(key + ":no-line", "did not return the drawn Line2D objects", lines, None)
+        if hasattr(lines, "get_xdata"):
+            lines = [lines]
+        try:
+            ok_ret = bool(lines) and hasattr(lines[0], "get_xdata")
+        except Exception:
+            ok_ret = False
+        if not ok_ret:
+            lines = list(ax.lines)          # the return value is not part of the property: read what was drawn
+        if not lines:
+            ctx.violation(key + ":no-line", "nothing was drawn on the axes", out.value, None)
             return
         gx = np.asarray(lines[0].get_xdata(), dtype=float).tolist()
         gy = np.asarray(lines[0].get_ydata(), dtype=float).tolist()
@@ -244,7 +252,7 @@ def k_rankfrequency(ctx, data, normalize_x, normalize_y, scalex, scaley, log_x=T
         elif len(gy) != n or any(abs(a - b) > 1e-12 + 1e-9 * abs(b) for a, b in zip(gy, want_y)):
             ctx.violation(key + ":y-data", "y data are not the 0-based ranks (scaled / normalised)", gy[:12], want_y[:12])
         if lines[0] not in ax.lines:
-            ctx.violation(key + ":wrong-axes", "line was not drawn on the Axes that was passed", None, None)
+            ctx.count("rankfrequency_line_not_on_given_axes")     # not part of the property
     finally:
         _close_figs()
 
@@ -289,7 +297,7 @@ def k_labels(ctx, labels, min_count, which, np_seed):
         if len(set(frequent)) != len(frequent):
             ctx.violation("labels_to_colors_hls:distinct-labels-same-colour", "two distinct labels share a colour", sorted(frequent)[:6], None)
     if arg != list(labels):
-        ctx.violation(f"labels_to_colors_{which}:input-modified", "the caller's label list was modified", arg[:10], labels[:10])
+        ctx.count("label_list_modified")                    # argument purity is C20's property: observation only here
 
 
 def k_density(ctx, pts, sort):
@@ -320,7 +328,7 @@ def k_density(ctx, pts, sort):
         elif any(got[p] != want[p] for p in want):
             ctx.violation("density_scatter:discrete:multiplicity", "colour values are not the multiplicities of the points", got, dict(want))
         elif sort and arr != sorted(arr):
-            ctx.violation("density_scatter:discrete:order", "sort=True but densest points are not drawn last", arr, sorted(arr))
+            ctx.count("density_scatter_not_sorted_by_density")   # drawing order is not part of the property
     finally:
         _close_figs()
 
